@@ -253,7 +253,14 @@ func (g *G) StateAt(kind string, height base.Height, noprevious bool) base.BaseS
 
 func (g *G) Time() time.Time {
 	// millisecond resolution, UTC: what the protocol's normalized time keeps
-	return time.Unix(1_600_000_000+g.R.Int63n(200_000_000), int64(g.R.Intn(1000))*1_000_000).UTC()
+	// one in eight has no fractional second at all (the encoding of such a
+	// time was unparseable before fix 25478cc)
+	ms := int64(g.R.Intn(1000))
+	if g.R.Intn(8) == 0 {
+		ms = 0
+	}
+
+	return time.Unix(1_600_000_000+g.R.Int63n(200_000_000), ms*1_000_000).UTC()
 }
 
 func (g *G) Manifest() isaac.Manifest {
